@@ -1250,4 +1250,107 @@ theorem sorted_fst_unique {β : Type} (l : List (Nat × β)) (h : (l.map (·.1))
         omega
       | tail _ hb => exact ih h.2 ha hb
 
+
+/-! ### ghost synchronisation: `view` is `events` seen through `Rfc.PeerView.observe`; frames never carry a
+    Retire Prior To above the registry's -/
+
+structure Inv4 (s : State) : Prop where
+  viewSync : s.view = s.events.foldl observe {}
+  framesRpt : ∀ f ∈ emitted s, f.rpt ≤ s.retirePriorTo
+
+theorem Inv4.of_same {s s' : State} (h : Inv4 s) (he : s'.events = s.events) (hv : s'.view = s.view)
+    (hr : s.retirePriorTo ≤ s'.retirePriorTo) : Inv4 s' := by
+  refine ⟨by rw [hv, he]; exact h.viewSync, ?_⟩
+  intro f hf
+  have : f ∈ emitted s := by
+    show f ∈ framesOf s.events
+    rw [← he]; exact hf
+  exact Nat.le_trans (h.framesRpt f this) hr
+
+theorem Inv4.rxRetire {s s' : State} (h : Inv4 s) (q : Nat) (he : s'.events = s.events ++ [.rxRetire q])
+    (hv : s'.view = observe s.view (.rxRetire q)) (hr : s'.retirePriorTo = s.retirePriorTo) : Inv4 s' := by
+  refine ⟨?_, ?_⟩
+  · rw [hv, he, List.foldl_append, ← h.viewSync]; rfl
+  · intro f hf
+    have : f ∈ emitted s := by
+      have hf' : f ∈ framesOf s'.events := hf
+      rw [he, framesOf_append, framesOf_rxRetire, List.append_nil] at hf'
+      exact hf'
+    rw [hr]; exact h.framesRpt f this
+
+theorem inv4_step (p : Nat) {s : State} (h : Inv4 s) (op : Op) : Inv4 (Quic.Conn.LocalIds.step p s op).1 := by
+  cases op with
+  | setLimit => exact h.of_same rfl rfl (Nat.le_refl _)
+  | register id e t =>
+    rcases register_cases s id e t with ⟨h1, _⟩ | ⟨m, _, _, _, _, heq⟩
+    · simp only [Quic.Conn.LocalIds.step]; rw [h1]; exact h
+    · simp only [Quic.Conn.LocalIds.step]; rw [heq]; exact h.of_same rfl rfl (Nat.le_refl _)
+  | onRetire seq dcid rtt now =>
+    simp only [Quic.Conn.LocalIds.step]
+    rcases onRetire_cases s seq dcid rtt now with ⟨h1, _⟩ | ⟨h1, _⟩ | ⟨pre, x, post, hs, _, h1⟩
+    · rw [h1]; exact h
+    · rw [h1]; exact h.rxRetire seq rfl rfl rfl
+    · rw [h1]; exact h.rxRetire seq rfl rfl rfl
+  | onTimeout now =>
+    simp only [Quic.Conn.LocalIds.step, onTimeout]
+    split
+    · split
+      · exact h.of_same rfl rfl (foldl_rpt_ge _ _ _)
+      · exact h
+    · exact h
+  | onTransmit c pn room =>
+    simp only [Quic.Conn.LocalIds.step, onTransmit]
+    split
+    · exact h
+    · refine ⟨?_, ?_⟩
+      · simp only [List.foldl_append]
+        rw [← h.viewSync]
+      · intro f hf
+        have hf' : f ∈ framesOf (s.events ++ (transmitLoop s.retirePriorTo c pn s.ids room).2) := hf
+        rw [framesOf_append, transmitLoop_events, framesOf_tx] at hf'
+        simp only [List.mem_append] at hf'
+        rcases hf' with hf' | hf'
+        · exact h.framesRpt f hf'
+        · obtain ⟨i, _, rfl, _⟩ := transmitFrames_mem _ _ _ _ f hf'
+          exact Nat.le_refl _
+  | onPacketAck set =>
+    simp only [Quic.Conn.LocalIds.step, onPacketAck]
+    split
+    · exact h
+    · exact h.of_same rfl rfl (Nat.le_refl _)
+  | onPacketLoss set =>
+    simp only [Quic.Conn.LocalIds.step, onPacketLoss]
+    split
+    · exact h
+    · exact h.of_same rfl rfl (Nat.le_refl _)
+  | onHandshakeConfirmed =>
+    simp only [Quic.Conn.LocalIds.step, onHandshakeConfirmed]
+    split
+    · rcases retireHandshake_cases s with h1 | ⟨pre, x, post, hs, _, _, h1⟩
+      · rw [h1]; exact h
+      · rw [h1]; exact h.of_same rfl rfl (Nat.le_max_left _ _)
+    · exact h
+  | envInsert id owner =>
+    simp only [Quic.Conn.LocalIds.step]
+    split
+    · exact h
+    · split
+      · exact h.of_same rfl rfl (Nat.le_refl _)
+      · exact h
+  | envRemove id =>
+    simp only [Quic.Conn.LocalIds.step]
+    split
+    · exact h
+    · exact h.of_same rfl rfl (Nat.le_refl _)
+
+theorem inv4_run (p : Nat) {s : State} (h : Inv4 s) (ops : List Op) : Inv4 (run p s ops) := by
+  induction ops generalizing s with
+  | nil => exact h
+  | cons op ops ih => exact ih (inv4_step p h op)
+
+theorem inv4_new {iid : Nat} {m : List (Cid × Nat)} {hid : Cid} {e : Option Nat} {t : Token} {rot : Bool} {s : State}
+    (h : new iid m hid e t rot = some s) : Inv4 s := by
+  obtain ⟨m', _, rfl⟩ := new_spec h
+  exact ⟨rfl, by simp [emitted, framesOf]⟩
+
 end Quic.Proofs.LocalIds
